@@ -1022,3 +1022,90 @@ def _one_hot(it, ctx, a, k):
         raise Undecided("one_hot without num_classes")
     na = t.natoms()
     return VTensor(list(t.dims) + [E.Dim([nc.t])], lambda idx: z3.If(t.elem(idx[:na]) == idx[na], z3.IntVal(1), z3.IntVal(0)), "int")
+
+
+T["string.ascii_lowercase"] = VStr("abcdefghijklmnopqrstuvwxyz")
+
+
+@op("torch.einsum")
+def _einsum(it, ctx, a, k):
+    """torch.einsum with a concrete equation; every labelled dimension is made single-index, '...' dims are right-aligned and broadcast (extent 1 reads
+    index 0), labels missing from the output are summed (innermost first).  No repeated label within one operand."""
+    eq = a[0]
+    if not isinstance(eq, VStr):
+        raise Undecided("einsum with a non-concrete equation")
+    ops = list(a[1].items) if len(a) == 2 and isinstance(a[1], (VList, VTuple)) else list(a[1:])
+    s = eq.s.replace(" ", "")
+    if "->" not in s:
+        raise Undecided("einsum without explicit output")
+    lhs, out = s.split("->")
+    specs = lhs.split(",")
+    if len(specs) != len(ops):
+        raise PyRaise(VExc("RuntimeError", "einsum(): more operands were provided than specified in the equation"))
+    tens = []
+    for sp, t in zip(specs, ops):
+        t = as_tensor(t).frozen()
+        for p in range(len(t.dims)):
+            t = E.flatten_dim(t, p)
+        labs = sp.replace("...", "")
+        if len(set(labs)) != len(labs):
+            raise Undecided("einsum with a repeated label in one operand")
+        nell = len(t.dims) - len(labs)
+        if nell < 0 or (nell > 0 and "..." not in sp):
+            raise PyRaise(VExc("RuntimeError", "einsum(): the number of subscripts does not match the number of dimensions"))
+        pos = sp.index("...") if "..." in sp else None
+        # per dim: ("L", label) | ("E", k-th ellipsis dim from the right)
+        pre = sp[:pos] if pos is not None else sp
+        post = sp[pos + 3:] if pos is not None else ""
+        order = [("L", ch) for ch in pre] + [("E", nell - 1 - q) for q in range(nell)] + [("L", ch) for ch in post]
+        tens.append((t, order))
+    # extents
+    ext = {}
+    ell = {}
+    for t, order in tens:
+        for d, (kind, key) in zip(t.dims, order):
+            tgt = ext if kind == "L" else ell
+            if key not in tgt or E.is_one(ctx, tgt[key]):
+                tgt[key] = d.size
+    out_labs = out.replace("...", "")
+    nell_out = max(ell) + 1 if ell else 0
+    if ell and "..." not in out:
+        raise Undecided("einsum summing over the ellipsis dimensions")
+    opos = out.index("...") if "..." in out else len(out)
+    oorder = [("L", ch) for ch in out[:opos]] + [("E", nell_out - 1 - q) for q in range(nell_out)] + [("L", ch) for ch in out[opos + 3:]] if "..." in out else [("L", ch) for ch in out]
+    summed = [ch for ch in ext if ch not in out_labs]
+    odims = [Dim([ext[key] if kind == "L" else ell[key]]) for kind, key in oorder]
+    real = any(t.sort == "real" for t, _ in tens)
+
+    def elem(idx):
+        env = {kk: v for kk, v in zip(oorder, idx)}
+
+        def prod(env2):
+            r = None
+            for t, order in tens:
+                ix = []
+                for d, kk in zip(t.dims, order):
+                    ix.append(z3.IntVal(0) if (E.is_one(ctx, d.size) and not (kk[0] == "L" and E.is_one(ctx, ext[kk[1]]))) else env2[kk])
+                v = t.elem(ix)
+                v = E.to_real(v) if real else v
+                r = v if r is None else r * v
+            return r
+
+        def rec(rem, env2):
+            if not rem:
+                return prod(env2)
+            ch = rem[0]
+            return E.mk_sum(lambda kx: rec(rem[1:], {**env2, ("L", ch): kx}), ext[ch])
+
+        return rec(summed, env)
+
+    return VTensor(odims, elem, "real" if real else "int")
+
+
+@op("pickle.dumps")
+def _pickle_dumps(it, ctx, a, k):
+    """only used as a cache-key component by gpytorch.utils.memoize: a canonical string for a dict of keyword arguments (empty in every modelled call)"""
+    x = a[0]
+    if isinstance(x, VDict) and not x.d:
+        return VStr("pickle:{}")
+    raise Undecided("pickle.dumps of a non-empty object")
